@@ -1,4 +1,16 @@
 """C17 - WebSocket handshakes accept exactly the valid, permitted upgrades.
+
+MC : specs/ws/WsHandshake.tla - the handshake as a decision table over header classes (server
+     requests and server answers to the client); ServerExactly / ClientExactly on every row.
+S2C: every row (at most MaxDev non-default fields) is a real upgrade request through an in-memory
+     web.Application + WebSocketHandler, or a scripted answer to the real websocket_connect
+     client; the verdict clauses (must / may complete, accept value recomputed with hashlib,
+     subprotocol, extension response, upgrade really happened / did not happen) are judged against
+     the row's TLC-computed verdict.
+
+Binding demonstrated in a scratch worktree (see notes/ws.md): an `endswith` origin comparison, a
+substring test for the Connection token and a client that does not compare the accept value are
+each reported.
 """
 import time
 
@@ -92,6 +104,9 @@ def run(ctx):
     ctx.replay(items, replayer, nontrivial=lambda e, p: True)
     ctx._phase("s2c", t0)
     ctx.cov["exhaustive"] = True
+    ctx.cov["trusted_base"] += ["hashlib/base64 for the accept value", "class tags of header literals in WsHandshake.tla"]
+    ctx.cov["rule"] = ("rows: every server request / client answer of the WsHandshake table with at most %d non-default fields; "
+                       "distinct = distinct rows" % ctx.pick(2, 3))
 
 
 def replay(ctx, rec):
